@@ -478,6 +478,9 @@ STYLE_DOCS = [
   ("diamond", '<styling><style xml:id="a" tts:color="red"/><style xml:id="b" style="a"/><style xml:id="c" style="a" tts:color="lime"/><style xml:id="d" style="b c"/></styling>',
    '<p style="d">X</p>', "p", "lime"),
   ("missing-reference", '<styling><style xml:id="s1" tts:color="red"/></styling>', '<p style="nope s1">X</p>', "p", "red"),
+  # reference cycles: a style naming itself, two styles naming each other -- no defined precedence, but the reader terminates
+  ("cycle-self", '<styling><style xml:id="a" style="a" tts:color="red"/></styling>', '<p style="a">X</p>', "p", "red"),
+  ("cycle-two", '<styling><style xml:id="a" style="b" tts:color="red"/><style xml:id="b" style="a"/></styling>', '<p style="a">X</p>', "p", "red"),
   ("missing-reference-last", '<styling><style xml:id="s1" tts:color="red"/></styling>', '<p style="s1 nope">X</p>', "p", "red"),
   ("missing-reference-middle", '<styling><style xml:id="s1" tts:color="red" tts:backgroundColor="blue"/><style xml:id="s2" tts:color="lime"/></styling>',
    '<p style="s1 nope s2">X</p>', "p", "lime"),
